@@ -154,6 +154,34 @@ def body_input(d, fn, r_dir, r_name, r_tex, r_latex, e_plain, e_tex, e_latex, vi
     return len(m.opened) >= 1
 
 
+def body_input_seq(t, e_second, first_strict):
+    """same LatexNodes2Text object: read the name under directory /b (strict or not), then configure /a strictly and
+    read the same name again: nothing from outside /a may be returned the second time."""
+    l2t = LatexNodes2Text()
+    m1 = FsModel('/b', 'x', '/b', '/b/x', '/zz/p.tex', '/zz/p.latex', True, False, False)
+    m1.r_dir = '/a'          # contents are labelled relative to the directory configured at the end
+    l2t.set_tex_input_directory('/b', strict_input=first_strict)
+    posixpath.realpath, posixpath.exists, posixpath.isfile, builtins.open = m1.realpath, m1.exists, m1.isfile, m1.open
+    try:
+        first = l2t.read_input_file('x')
+    finally:
+        posixpath.realpath, posixpath.exists, posixpath.isfile, builtins.open = \
+            _REAL['realpath'], _REAL['exists'], _REAL['isfile'], _REAL['open']
+    require(first == 'OUT', 'model: the first read should return the file below /b')
+    m2 = FsModel('/a', 'x', '/a', t, '/zz/p.tex', '/zz/p.latex', e_second, False, False)
+    l2t.set_tex_input_directory('/a', strict_input=True)
+    posixpath.realpath, posixpath.exists, posixpath.isfile, builtins.open = m2.realpath, m2.exists, m2.isfile, m2.open
+    try:
+        got = l2t.read_input_file('x')
+    finally:
+        posixpath.realpath, posixpath.exists, posixpath.isfile, builtins.open = \
+            _REAL['realpath'], _REAL['exists'], _REAL['isfile'], _REAL['open']
+    require('OUT' not in got, 'after re-configuring the input directory, content from outside it was returned')
+    if e_second and inside(t, '/a'):
+        require(got == 'IN', 'after re-configuring the input directory, the file inside it was not read')
+    return True
+
+
 # ---- model validation on the real file system (concrete only) ----
 def body_realfs(case):
     root = tempfile.mkdtemp(prefix='c15_', dir='/verif/.work' if os.path.isdir('/verif/.work') else None)
@@ -234,6 +262,11 @@ def conditions(tier):
                             ('latex', 'body_input(%r, %r, %r, "/a/p", "/zz/q", t, False, False, True)' % (d, fn, rdir))):
                         conds.append(Cond(nm + which + '_' + tag, P, pre, call, timeout=T,
                                           smoke=[dict(t=sh.replace('?', c)) for c in 'bx'], twin=False))
+    for fs in (True, False):
+        conds.append(Cond('model_seq_%s' % ('strict' if fs else 'lax'), 't: str, e_second: bool',
+                          pin_pre('t', '/a?x') + ['t[2] != chr(0)'], 'body_input_seq(t, e_second, %r)' % fs, timeout=T, twin=False,
+                          smoke=[dict(t='/a/x', e_second=True), dict(t='/a/x', e_second=False), dict(t='/abx', e_second=True)],
+                          descr='history on one object: read under /b, then set_tex_input_directory(/a, strict) and read again'))
     conds.append(Cond('model_none', 't: str', pin_pre('t', '/a/?') + ['t[3] != chr(47)'],
                       "body_input('/a', 'x', '/a', t, '/y', '/z', False, False, False)", timeout=T, twin=False))
     conds.append(Cond('model_macro', 't: str', pin_pre('t', '/a?') + ['t[2] != chr(47)', 't[2] != chr(0)'],
